@@ -416,5 +416,366 @@ theorem newRow_keys_nodup (n : NFA σ α) (q : σ) {row : Row σ α} (h : (akeys
   unfold newRow akeys
   exact List.Nodup.sublist (List.Sublist.map _ List.filter_sublist) (h1 n.syms row h)
 
+theorem tgt_nodup {row : Row σ α} (h : ∀ e ∈ row, e.2.Nodup) (x : Option α) : (tgt row x).Nodup := by
+  unfold tgt
+  cases hr : alookup x row with
+  | none => simp
+  | some ts => exact h _ (alookup_some_mem hr)
+
+theorem newRow_targets_nodup (n : NFA σ α) (q : σ) {row : Row σ α} (h : ∀ e ∈ row, e.2.Nodup) :
+    ∀ e ∈ newRow n q row, e.2.Nodup := by
+  have h1 : ∀ (as : List α) (row : Row σ α), (∀ e ∈ row, e.2.Nodup) →
+      ∀ e ∈ rowFold n q as row, e.2.Nodup := by
+    intro as
+    induction as with
+    | nil => intro row h; exact h
+    | cons a as ih =>
+      intro row h
+      apply ih
+      by_cases he : n.nextStates (encl n q) a = []
+      · rw [rowSym_empty n q row he]; exact h
+      · rw [rowSym_nonempty n q row he]
+        intro e hmem
+        rcases mem_ainsert hmem with h' | h'
+        · subst h'; exact nodup_sunion (tgt_nodup h _)
+        · exact h e h'
+  intro e he
+  exact h1 n.syms row h e (List.mem_filter.mp he).1
+
+/-! ### the table and the final set after the loop -/
+
+/-- `new_transitions` after the loop. -/
+def elimTable (n : NFA σ α) : Table σ α := (n.states.foldl n.elimStep (n.trans, dedup n.finals)).1
+
+/-- `new_final_states` after the loop. -/
+def elimFinals (n : NFA σ α) : List σ := (n.states.foldl n.elimStep (n.trans, dedup n.finals)).2
+
+/-- Successors in the new table (what `_compute_reachable_states` follows). -/
+def succT (n : NFA σ α) (q : σ) : List σ := (rowOf (elimTable n) q).flatMap fun e => e.2
+
+/-- `reachable_states`. -/
+def reach (n : NFA σ α) : List σ := NFA.reachableStates n.init (elimTable n) (n.nodes.length + 1)
+
+theorem eliminateLambda_eq (n : NFA σ α) :
+    n.eliminateLambda =
+      { states := reach n, syms := n.syms,
+        trans := (elimTable n).filter fun kv => decide (kv.1 ∈ reach n),
+        init := n.init, finals := (reach n).filter fun q => decide (q ∈ elimFinals n) } := rfl
+
+theorem reach_eq (n : NFA σ α) : reach n = bfsN (succT n) (n.nodes.length + 1) [n.init] := rfl
+
+theorem trans_rowOK {n : NFA σ α} (wf : n.WF) : ∀ kv ∈ n.trans, RowOK n kv.2 := by
+  intro kv hkv e he
+  refine ⟨fun a ha => ?_, fun t ht => ?_⟩
+  · exact wf.symsOk kv hkv a (List.mem_map.mpr ⟨e, he, ha⟩)
+  · exact wf.tgtOk kv hkv e.2 (List.mem_map.mpr ⟨e, he, rfl⟩) t ht
+
+theorem row_rowOK {n : NFA σ α} (wf : n.WF) (q : σ) : RowOK n (n.row q) := by
+  intro e he
+  obtain ⟨r, hr, her⟩ := row_mem_trans he
+  exact trans_rowOK wf (q, r) hr e her
+
+theorem elimTable_nodup {n : NFA σ α} (ps : n.PyShape) : (akeys (elimTable n)).Nodup :=
+  (fold_fst_spec n n.states ps.states_nodup (n.trans, dedup n.finals)).1 ps.keys_nodup
+
+/-- **Rows after the loop**: the row of every state has been rewritten exactly once. -/
+theorem elimTable_row {n : NFA σ α} (ps : n.PyShape) {q : σ} (hq : q ∈ n.states) :
+    rowOf (elimTable n) q = newRow n q (n.row q) :=
+  (fold_fst_spec n n.states ps.states_nodup (n.trans, dedup n.finals)).2.1 q hq
+
+theorem elimTable_keys {n : NFA σ α} (ps : n.PyShape) : ∀ k ∈ akeys n.trans, k ∈ akeys (elimTable n) :=
+  (fold_fst_spec n n.states ps.states_nodup (n.trans, dedup n.finals)).2.2.2.2
+
+theorem elimTable_ok {n : NFA σ α} (wf : n.WF) (ps : n.PyShape) : ∀ kv ∈ elimTable n, RowOK n kv.2 := by
+  intro kv hkv
+  rcases (fold_fst_spec n n.states ps.states_nodup (n.trans, dedup n.finals)).2.2.2.1 kv hkv with h | h
+  · exact trans_rowOK wf kv h
+  · rw [← rowOf_of_mem (elimTable_nodup ps) hkv, elimTable_row ps h]
+    exact newRow_ok wf kv.1 (row_rowOK wf kv.1)
+
+theorem rowOf_elimTable_ok {n : NFA σ α} (wf : n.WF) (ps : n.PyShape) (q : σ) :
+    RowOK n (rowOf (elimTable n) q) := by
+  intro e he
+  obtain ⟨r, hr, her⟩ := rowOf_mem he
+  exact elimTable_ok wf ps (q, r) hr e her
+
+theorem succT_sub_states {n : NFA σ α} (wf : n.WF) (ps : n.PyShape) {u v : σ} (h : v ∈ succT n u) :
+    v ∈ n.states := by
+  obtain ⟨e, he, hv⟩ := List.mem_flatMap.mp h
+  exact (rowOf_elimTable_ok wf ps u e he).2 v hv
+
+/-- `_compute_reachable_states` computes reachability in the new table. -/
+theorem mem_reach {n : NFA σ α} (wf : n.WF) (ps : n.PyShape) (q : σ) :
+    q ∈ reach n ↔ Reach (succT n) n.init q := by
+  rw [reach_eq, mem_bfsN_iff (succT n) (univ := n.nodes) (Nat.lt_succ_self _)]
+  · simp
+  · intro s hs; simp at hs; subst hs; exact NFA.states_sub_nodes n wf.initOk
+  · intro u _ v hv; exact NFA.states_sub_nodes n (succT_sub_states wf ps hv)
+
+theorem nodup_reach {n : NFA σ α} (wf : n.WF) (ps : n.PyShape) : (reach n).Nodup := by
+  rw [reach_eq]
+  refine nodup_bfsN (succT n) (univ := n.nodes) (Nat.lt_succ_self _) ?_ ?_
+  · intro s hs; simp at hs; subst hs; exact NFA.states_sub_nodes n wf.initOk
+  · intro u _ v hv; exact NFA.states_sub_nodes n (succT_sub_states wf ps hv)
+
+theorem reach_sub_states {n : NFA σ α} (wf : n.WF) (ps : n.PyShape) {q : σ} (h : q ∈ reach n) :
+    q ∈ n.states := by
+  rw [mem_reach wf ps] at h
+  cases h with
+  | refl => exact wf.initOk
+  | tail _ hc => exact succT_sub_states wf ps hc
+
+theorem init_mem_reach {n : NFA σ α} (wf : n.WF) (ps : n.PyShape) : n.init ∈ reach n :=
+  (mem_reach wf ps _).mpr (Reach.refl _)
+
+theorem reach_closed {n : NFA σ α} (wf : n.WF) (ps : n.PyShape) {u v : σ} (hu : u ∈ reach n)
+    (hv : v ∈ succT n u) : v ∈ reach n := by
+  rw [mem_reach wf ps] at hu ⊢
+  exact Reach.tail hu hv
+
+/-! ### the ε-eliminated NFA -/
+
+theorem elim_row (n : NFA σ α) (q : σ) :
+    n.eliminateLambda.row q = if q ∈ reach n then rowOf (elimTable n) q else [] := by
+  rw [eliminateLambda_eq]
+  unfold NFA.row NFA.row?
+  simp only
+  rw [alookup_filter_key (fun k => decide (k ∈ reach n))]
+  by_cases h : q ∈ reach n
+  · simp [h, rowOf]
+  · simp [h]
+
+theorem elim_row_reach {n : NFA σ α} (wf : n.WF) (ps : n.PyShape) {q : σ} (hq : q ∈ reach n) :
+    n.eliminateLambda.row q = newRow n q (n.row q) := by
+  rw [elim_row, if_pos hq, elimTable_row ps (reach_sub_states wf ps hq)]
+
+theorem elim_targets_none {n : NFA σ α} (wf : n.WF) (ps : n.PyShape) (q : σ) :
+    n.eliminateLambda.targets q none = [] := by
+  show tgt (n.eliminateLambda.row q) none = []
+  by_cases hq : q ∈ reach n
+  · rw [elim_row_reach wf ps hq]; exact newRow_tgt_none n q _
+  · rw [elim_row, if_neg hq]; rfl
+
+/-- No λ-moves are left, so closures in the result are singletons. -/
+theorem elim_closure {n : NFA σ α} (wf : n.WF) (ps : n.PyShape) (q : σ) :
+    n.eliminateLambda.closure q = [q] :=
+  closure_eq_singleton _ (elim_targets_none wf ps q)
+
+/-- A symbol on which some state has a target belongs to the alphabet. -/
+theorem nextStates_sym {n : NFA σ α} (wf : n.WF) {S : List σ} {a : α} {p : σ}
+    (h : p ∈ n.nextStates S a) : a ∈ n.syms := by
+  obtain ⟨q, _, t, ht, _⟩ := (NFA.mem_nextStates n S a p).mp h
+  obtain ⟨ts, hts, _⟩ := tgt_mem (r := n.row q) ht
+  exact (row_rowOK wf q _ hts).1 a rfl
+
+/-- **Targets in the result** (for a reachable state): old targets ∪ nextStates(enclosure). -/
+theorem elim_targets_some {n : NFA σ α} (wf : n.WF) (ps : n.PyShape) {q : σ} (hq : q ∈ reach n)
+    (a : α) (t : σ) :
+    t ∈ n.eliminateLambda.targets q (some a) ↔
+      t ∈ n.targets q (some a) ∨ t ∈ n.nextStates (encl n q) a := by
+  show t ∈ tgt (n.eliminateLambda.row q) (some a) ↔ t ∈ tgt (n.row q) (some a) ∨ _
+  rw [elim_row_reach wf ps hq, newRow_tgt]
+  constructor
+  · rintro (h | ⟨_, h⟩)
+    · exact Or.inl h
+    · exact Or.inr h
+  · rintro (h | h)
+    · exact Or.inl h
+    · exact Or.inr ⟨nextStates_sym wf h, h⟩
+
+theorem elim_targets_sub_succT {n : NFA σ α} {q : σ} (hq : q ∈ reach n) {x : Option α} {t : σ}
+    (h : t ∈ n.eliminateLambda.targets q x) : t ∈ succT n q := by
+  have h' : t ∈ tgt (n.eliminateLambda.row q) x := h
+  rw [elim_row, if_pos hq] at h'
+  obtain ⟨ts, hts, ht⟩ := tgt_mem h'
+  exact List.mem_flatMap.mpr ⟨_, hts, ht⟩
+
+/-! ### language -/
+
+/-- λ-closure (in the source NFA) of a set of states. -/
+def clo (n : NFA σ α) (S : List σ) : List σ := S.flatMap n.closure
+
+theorem mem_clo (n : NFA σ α) (S : List σ) (p : σ) : p ∈ clo n S ↔ ∃ q ∈ S, p ∈ n.closure q :=
+  List.mem_flatMap
+
+theorem elim_mem_nextStates {n : NFA σ α} (wf : n.WF) (ps : n.PyShape) {S : List σ}
+    (hS : ∀ q ∈ S, q ∈ reach n) (a : α) (t : σ) :
+    t ∈ n.eliminateLambda.nextStates S a ↔
+      ∃ q ∈ S, t ∈ n.targets q (some a) ∨ t ∈ n.nextStates (encl n q) a := by
+  rw [NFA.mem_nextStates]
+  simp only [elim_closure wf ps, List.mem_singleton]
+  constructor
+  · rintro ⟨q, hq, t', ht', rfl⟩
+    exact ⟨q, hq, (elim_targets_some wf ps (hS q hq) a _).mp ht'⟩
+  · rintro ⟨q, hq, h⟩
+    exact ⟨q, hq, t, (elim_targets_some wf ps (hS q hq) a t).mpr h, rfl⟩
+
+theorem elim_nextStates_sub_reach {n : NFA σ α} (wf : n.WF) (ps : n.PyShape) {S : List σ}
+    (hS : ∀ q ∈ S, q ∈ reach n) (a : α) : ∀ t ∈ n.eliminateLambda.nextStates S a, t ∈ reach n := by
+  intro t ht
+  obtain ⟨q, hq, t', ht', htc⟩ := (NFA.mem_nextStates _ S a t).mp ht
+  rw [elim_closure wf ps, List.mem_singleton] at htc
+  subst htc
+  exact reach_closed wf ps (hS q hq) (elim_targets_sub_succT (hS q hq) ht')
+
+/-- **One step**: closing the successor set of the ε-free NFA gives the successor set of the
+source NFA from the closed set. -/
+theorem clo_step {n : NFA σ α} (wf : n.WF) (ps : n.PyShape) {S : List σ}
+    (hS : ∀ q ∈ S, q ∈ reach n) (a : α) (p : σ) :
+    p ∈ clo n (n.eliminateLambda.nextStates S a) ↔ p ∈ n.nextStates (clo n S) a := by
+  rw [mem_clo, NFA.mem_nextStates]
+  constructor
+  · rintro ⟨t, ht, hp⟩
+    obtain ⟨q, hq, h⟩ := (elim_mem_nextStates wf ps hS a t).mp ht
+    have hqs : q ∈ n.states := reach_sub_states wf ps (hS q hq)
+    rcases h with h | h
+    · exact ⟨q, (mem_clo n S q).mpr ⟨q, hq, self_mem_closure n (NFA.states_sub_nodes n hqs)⟩, t, h, hp⟩
+    · obtain ⟨q', hq', t', ht', htc⟩ := (NFA.mem_nextStates n _ a t).mp h
+      refine ⟨q', (mem_clo n S q').mpr ⟨q, hq, ((mem_encl n q q').mp hq').1⟩, t', ht', ?_⟩
+      exact closure_trans wf (NFA.targets_mem_states wf ht') htc hp
+  · rintro ⟨q', hq', t', ht', hp⟩
+    obtain ⟨q, hq, hq'c⟩ := (mem_clo n S q').mp hq'
+    by_cases e : q' = q
+    · subst e
+      exact ⟨t', (elim_mem_nextStates wf ps hS a t').mpr ⟨q', hq, Or.inl ht'⟩, hp⟩
+    · have hpn : p ∈ n.nextStates (encl n q) a :=
+        (NFA.mem_nextStates n _ a p).mpr ⟨q', (mem_encl n q q').mpr ⟨hq'c, e⟩, t', ht', hp⟩
+      have hps : p ∈ n.states := NFA.nextStates_sub_states wf _ a hpn
+      exact ⟨p, (elim_mem_nextStates wf ps hS a p).mpr ⟨q, hq, Or.inr hpn⟩,
+        self_mem_closure n (NFA.states_sub_nodes n hps)⟩
+
+/-- **Run invariant of ε-elimination**: from any set `S` of reachable states, the run of the
+ε-free NFA stays inside the reachable states, and its λ-closure (taken in the source NFA) is
+the run of the source NFA from the λ-closure of `S`. -/
+theorem elim_run {n : NFA σ α} (wf : n.WF) (ps : n.PyShape) (w : List α) :
+    ∀ S : List σ, (∀ q ∈ S, q ∈ reach n) →
+      (∀ q ∈ n.eliminateLambda.runFrom S w, q ∈ reach n) ∧
+      ∀ p, p ∈ clo n (n.eliminateLambda.runFrom S w) ↔ p ∈ n.runFrom (clo n S) w := by
+  induction w with
+  | nil => intro S hS; exact ⟨hS, fun p => Iff.rfl⟩
+  | cons a w ih =>
+    intro S hS
+    simp only [runFrom_cons]
+    obtain ⟨h1, h2⟩ := ih _ (elim_nextStates_sub_reach wf ps hS a)
+    refine ⟨h1, fun p => ?_⟩
+    rw [h2 p]
+    exact runFrom_congr n w (clo_step wf ps hS a) p
+
+theorem mem_elim_finals {n : NFA σ α} (wf : n.WF) (q : σ) :
+    q ∈ n.eliminateLambda.finals ↔
+      q ∈ reach n ∧ q ∈ n.states ∧ ∃ p ∈ n.closure q, p ∈ n.finals := by
+  rw [eliminateLambda_eq]
+  simp only [List.mem_filter, decide_eq_true_eq]
+  unfold elimFinals
+  rw [mem_elimFinals wf]
+
+/-- **ε-elimination preserves the language.** -/
+theorem elim_accepts {n : NFA σ α} (wf : n.WF) (ps : n.PyShape) (w : List α) :
+    n.eliminateLambda.accepts w = n.accepts w := by
+  unfold NFA.accepts
+  rw [elim_closure wf ps]
+  have hinit : n.eliminateLambda.init = n.init := rfl
+  rw [hinit]
+  obtain ⟨h1, h2⟩ := elim_run wf ps w [n.init] (by
+    intro q hq; simp at hq; subst hq; exact init_mem_reach wf ps)
+  have hclo : ∀ p, p ∈ clo n [n.init] ↔ p ∈ n.closure n.init := by
+    intro p; simp [clo]
+  rw [Bool.eq_iff_iff, anyFinal_iff, anyFinal_iff]
+  constructor
+  · rintro ⟨q, hq, hf⟩
+    obtain ⟨_, _, p, hp, hpf⟩ := (mem_elim_finals wf q).mp hf
+    refine ⟨p, ?_, hpf⟩
+    rw [← runFrom_congr n w hclo p, ← h2 p]
+    exact (mem_clo n _ p).mpr ⟨q, hq, hp⟩
+  · rintro ⟨p, hp, hpf⟩
+    rw [← runFrom_congr n w hclo p, ← h2 p] at hp
+    obtain ⟨q, hq, hpq⟩ := (mem_clo n _ p).mp hp
+    have hqr := h1 q hq
+    exact ⟨q, hq, (mem_elim_finals wf q).mpr ⟨hqr, reach_sub_states wf ps hqr, p, hpq, hpf⟩⟩
+
+/-! ### validity and structure of the result -/
+
+theorem elim_trans_mem {n : NFA σ α} {kv : σ × Row σ α} (h : kv ∈ n.eliminateLambda.trans) :
+    kv ∈ elimTable n ∧ kv.1 ∈ reach n := by
+  rw [eliminateLambda_eq] at h
+  simpa [List.mem_filter] using h
+
+theorem elim_trans_row {n : NFA σ α} (wf : n.WF) (ps : n.PyShape) {kv : σ × Row σ α}
+    (h : kv ∈ n.eliminateLambda.trans) : kv.2 = newRow n kv.1 (n.row kv.1) := by
+  obtain ⟨hT, hr⟩ := elim_trans_mem h
+  rw [← rowOf_of_mem (elimTable_nodup ps) hT, elimTable_row ps (reach_sub_states wf ps hr)]
+
+/-- The ε-eliminated NFA is a well-formed NFA definition. -/
+theorem elim_wf {n : NFA σ α} (wf : n.WF) (ps : n.PyShape) : n.eliminateLambda.WF := by
+  refine ⟨?_, ?_, init_mem_reach wf ps, ?_, ?_⟩
+  · intro kv hkv a ha
+    obtain ⟨e, he, hea⟩ := List.mem_map.mp ha
+    exact (elimTable_ok wf ps kv (elim_trans_mem hkv).1 e he).1 a hea
+  · intro kv hkv ts hts t ht
+    obtain ⟨hT, hr⟩ := elim_trans_mem hkv
+    obtain ⟨e, he, rfl⟩ := List.mem_map.mp hts
+    show t ∈ reach n
+    refine reach_closed wf ps hr ?_
+    unfold succT
+    rw [rowOf_of_mem (elimTable_nodup ps) hT]
+    exact List.mem_flatMap.mpr ⟨e, he, ht⟩
+  · rcases wf.initRow with h | h
+    · left
+      have h' := elimTable_keys ps _ h
+      obtain ⟨kv, hkv, hk⟩ := List.mem_map.mp h'
+      refine List.mem_map.mpr ⟨kv, ?_, hk⟩
+      rw [eliminateLambda_eq]
+      simp only [List.mem_filter, decide_eq_true_eq]
+      exact ⟨hkv, by rw [hk]; exact init_mem_reach wf ps⟩
+    · right
+      have : (reach n).length ≤ n.states.length :=
+        List.Nodup.length_le_of_subset (nodup_reach wf ps) (fun q hq => reach_sub_states wf ps hq)
+      show (reach n).length ≤ 1
+      omega
+  · intro q hq
+    rw [eliminateLambda_eq] at hq
+    exact (List.mem_filter.mp hq).1
+
+/-- No empty-string transition is left in the result. -/
+theorem elim_noEps {n : NFA σ α} (wf : n.WF) (ps : n.PyShape) :
+    ∀ kv ∈ n.eliminateLambda.trans, ∀ e ∈ kv.2, e.1 ≠ none := by
+  intro kv hkv e he
+  rw [elim_trans_row wf ps hkv] at he
+  exact newRow_noEps n kv.1 _ e he
+
+/-- Every state of the result is reachable from the initial state through the transitions
+of the result. -/
+theorem elim_reachable {n : NFA σ α} (wf : n.WF) (ps : n.PyShape) :
+    ∀ q ∈ n.eliminateLambda.states,
+      Reach (fun q => (n.eliminateLambda.row q).flatMap fun e => e.2) n.eliminateLambda.init q := by
+  intro q hq
+  have hq' : Reach (succT n) n.init q := (mem_reach wf ps q).mp hq
+  show Reach _ n.init q
+  induction hq' with
+  | refl => exact Reach.refl _
+  | tail hab hc ih =>
+    rename_i b c
+    have hb : b ∈ reach n := (mem_reach wf ps b).mpr hab
+    refine Reach.tail (ih hb) ?_
+    simp only [elim_row, if_pos hb]
+    exact hc
+
+theorem elim_pyShape {n : NFA σ α} (wf : n.WF) (ps : n.PyShape) : n.eliminateLambda.PyShape := by
+  refine ⟨nodup_reach wf ps, ps.syms_nodup, ?_, ?_, ?_, ?_⟩
+  · rw [eliminateLambda_eq]
+    exact List.Nodup.sublist List.filter_sublist (nodup_reach wf ps)
+  · rw [eliminateLambda_eq]
+    unfold akeys
+    exact List.Nodup.sublist (List.Sublist.map _ List.filter_sublist) (elimTable_nodup ps)
+  · intro kv hkv
+    rw [elim_trans_row wf ps hkv]
+    exact newRow_keys_nodup n kv.1 (NFA.PyShape.row_nodup ps kv.1)
+  · intro kv hkv
+    rw [elim_trans_row wf ps hkv]
+    apply newRow_targets_nodup
+    intro e he
+    obtain ⟨r, hr, her⟩ := row_mem_trans he
+    exact ps.targets_nodup _ hr e her
+
 end C07
 end AV
